@@ -334,7 +334,7 @@ def collect_r(ctx, results, props, stage_name, count_key="cases", nontrivial_key
     agg = {"cases": 0, "distinct_cases": 0, "items": 0, "error_items": 0, "runs_with_error": 0, "runs_with_skip": 0,
            "runs_with_multibyte": 0, "definitions": 0, "violation_count": 0, "traced_runs": 0, "read_events": 0, "attempts": 0,
            "restarts": 0, "max_reads_per_examined_byte": 0.0, "splits": 0, "stopped_mid_stream": 0, "chunk_schedules": 0,
-           "determinedness_inconclusive": 0, "inputs": {}, "callback_invocations": 0, "runs_with_callbacks": 0, "callback_bumps": 0}
+           "determinedness_inconclusive": 0, "callback_prefix_checks": 0, "inputs": {}, "callback_invocations": 0, "runs_with_callbacks": 0, "callback_bumps": 0}
     for r in results:
         if r.get("inconclusive") and not isinstance(r.get("inconclusive"), list):
             ctx.inconclusive.append(f"{stage_name} shard {r['shard']}: {r['inconclusive']} (a lexer that does not terminate cannot be told from a slow machine: no verdict)")
@@ -354,7 +354,7 @@ def collect_r(ctx, results, props, stage_name, count_key="cases", nontrivial_key
         agg["restarts"] += rt.get("restarts", 0)
         agg["max_reads_per_examined_byte"] = max(agg["max_reads_per_examined_byte"], rt.get("max_reads_per_examined_byte", 0.0))
         pt = r.get("partial", {})
-        for k in ("splits", "stopped_mid_stream", "chunk_schedules", "determinedness_inconclusive"):
+        for k in ("splits", "stopped_mid_stream", "chunk_schedules", "determinedness_inconclusive", "callback_prefix_checks"):
             agg[k] += pt.get(k, 0)
         for k, v in r.get("inputs", {}).items():
             agg["inputs"][k] = agg["inputs"].get(k, 0) + v
@@ -691,6 +691,15 @@ def check_C07(ctx):
         if cfg == cfgs[0]:
             ctx.coverage["distinct_nontrivial"] += a["stopped_mid_stream"]
         log(f"ran partial [{cfg}]: {a['splits']} splits, {a['stopped_mid_stream']} stopped mid-stream, {a['chunk_schedules']} chunk schedules")
+    # definitions with callbacks in partial mode: committed items are a leading run of the one-shot items and the callback
+    # invocations a leading run of the one-shot invocations (no callback runs for a match that is still pending)
+    ctx.rules += ["Callbacks corpus in partial mode (definitions whose callbacks do not bump): leading-run rule for the items and for the callback invocation log."]
+    cdir2, meta2, tags2 = ensure_corpus(ctx, "callbacks", cfgs[:2])
+    for cfg in cfgs[:2]:
+        res = run_shards(cdir2, tags2[cfg], "partial", ctx.seed, ctx.tier, meta2["shards"], cap=tier_params(ctx.tier)["cap"])
+        a = collect_r(ctx, res, {"C07"}, f"R:partial-callbacks:{tags2[cfg]}")
+        ctx.coverage["evaluations"] += a["splits"]
+        ctx.coverage["partial_callback_prefix_checks"] = ctx.coverage.get("partial_callback_prefix_checks", 0) + a.get("callback_prefix_checks", 0)
     # partial lexers that went through clone / morph / bump are still partial lexers: API histories with partial = true
     for cfg in cfgs:
         run_apidrv(ctx, build_apidrv(cfg), ["hist"], cfg, count=3000 if ctx.tier == "quick" else 100000,
@@ -818,6 +827,12 @@ def check_C13(ctx):
     ctx.coverage["distinct_nontrivial"] += first["runs_with_callbacks"]
     ctx.coverage["callback_invocations_observed"] = first["callback_invocations"]
     ctx.coverage["callback_bumps_observed"] = first["callback_bumps"]
+    # the same definitions as partial lexers: no callback may run for a match that is still pending at the end of the buffer
+    for cfg in (["tc", "sm"] if ctx.tier == "quick" else cfgs):
+        res = run_shards(cdir, tags[cfg], "partial", ctx.seed, ctx.tier, meta["shards"], cap=tier_params(ctx.tier)["cap"])
+        a = collect_r(ctx, res, {"C13"}, f"R:partial-callbacks:{tags[cfg]}")
+        ctx.coverage["evaluations"] += a["splits"]
+        ctx.coverage["partial_callback_prefix_checks"] = ctx.coverage.get("partial_callback_prefix_checks", 0) + a.get("callback_prefix_checks", 0)
     corpus = json.load(open(os.path.join(cdir, "corpus.json")))
     kinds = {}
     for d in corpus["defs"]:
